@@ -250,7 +250,13 @@ fn perturb_group(v: &mut Vec<u32>, dna: &mut Dna, g: usize) -> &'static str {
 
 pub fn check(stream: &[u8], vector: &[u32], estimate: Option<&[u32]>, group: &str, ctx: &mut Ctx) -> Result<(), Failure> {
     ctx.eval();
-    let r = guard(|| hooks::roundtrip_with_params(stream, vector).map(|r| r.map_err(|e| err_info(&e))));
+    let r = guard(|| {
+        hooks::roundtrip_with_params_staged(stream, vector).map(|r| match r {
+            hooks::StagedRoundtrip::AnalysisErr(e) => Err((false, err_info(&e))),
+            hooks::StagedRoundtrip::ReconstructErr { error, .. } => Err((true, err_info(&error))),
+            hooks::StagedRoundtrip::Done(rt) => Ok(rt),
+        })
+    });
     let hashname = ["None", "Zlib", "MiniZFast", "Libdeflate4", "Libdeflate4Fast", "ZlibNG", "RandomVector", "Crc32c"]
         [(vector[P_HASH_ALGORITHM] as usize).min(7)];
     match r {
@@ -259,12 +265,22 @@ pub fn check(stream: &[u8], vector: &[u32], estimate: Option<&[u32]>, group: &st
             ctx.discard("harness: vector not representable");
             Ok(())
         }
-        Ok(Some(Err(e))) => {
+        Ok(Some(Err((false, e)))) => {
+            // the analysis rejected the stream under these parameters: permitted
             ctx.class(&format!("{}:Err", group));
             ctx.class(&format!("hash:{}:Err", hashname));
             ctx.class(&format!("Err:{}", exit_code_name(e.code)));
             Ok(())
         }
+        Ok(Some(Err((true, e)))) => Err(Failure::new(
+            "C08",
+            "reconstruct-err",
+            exit_code_name(e.code),
+            format!(
+                "analysis under hash={} (perturbed group {}) produced correction data, but reconstruction from it failed: {}",
+                hashname, group, e.msg
+            ),
+        )),
         Ok(Some(Ok(rt))) => {
             if rt.consumed > stream.len() || rt.reconstructed[..] != stream[..rt.consumed] {
                 return Err(Failure::new(
